@@ -138,13 +138,26 @@ theorem C16_lockscript_balanced :
   intro r hr
   exact ⟨(expected_clean _ (report_mem r hr)).2.2.2, (expected_clean _ (report_mem r hr)).2.2.1⟩
 
-/-- **Lock order**: every edge `held → acquired` of every entry point goes up in rank (stack mutex < pool mutex <
-counter value mutex < counter subscriber mutex), so the lock-order graph is acyclic.  (`Shutdown` calling
-`Queue.SignalShutdown` under the pool lock would add `w.mutex → w.Queue.mutex`: the ABBA deadlock of a0dbad3.) -/
+theorem expected_ranked : ∀ x ∈ expectedReport, edgesRanked ranks x.edges = true := by decide +kernel
+
+theorem edgesRanked_mem (es : List (Str × Str)) (h : edgesRanked ranks es = true) (ed : Str × Str) (hed : ed ∈ es) :
+    ∃ a b, rankOf ranks ed.1 = some a ∧ rankOf ranks ed.2 = some b ∧ a < b := by
+  unfold edgesRanked at h
+  have := List.all_eq_true.mp h ed hed
+  revert this
+  cases h1 : rankOf ranks ed.1 <;> cases h2 : rankOf ranks ed.2 <;> simp
+
+/-- **Lock order**: whenever an entry point acquires a mutex `m` while it holds another mutex `h`, `h` has a strictly
+lower rank than `m` (stack mutex < pool mutex < counter value mutex < counter subscriber mutex): all goroutines of the
+pool take their locks in one global order, the lock-order graph is acyclic.  (`Shutdown` calling `Queue.SignalShutdown`
+under the pool lock would acquire `w.Queue.mutex` while holding `w.mutex`, against the dispatcher's order: the ABBA
+deadlock of a0dbad3.) -/
 theorem C16_lockscript_order_acyclic :
-    ∀ x ∈ report, edgesRanked ranks x.edges = true := by
-  rw [C16_lockscript_report]
-  decide +kernel
+    ∀ r ∈ roots, ∀ pre m post, script env r = pre ++ .acq m :: post → ∀ h ∈ heldAfter conds pre, h ≠ m →
+      ∃ a b, rankOf ranks h = some a ∧ rankOf ranks m = some b ∧ a < b := by
+  intro r hr pre m post hs h hh hne
+  have hmem := scan_edges_sound conds (script env r) pre m post hs h hh hne
+  exact edgesRanked_mem _ (expected_ranked _ (report_mem r hr)) (h, m) hmem
 
 /-- **Panic safety of the pool lock**: in every function of the table, each `Lock`/`RLock` of `w.mutex` is immediately
 followed by its deferred unlock and there is no explicit unlock: the lock is released on every exit, also when a callee
